@@ -136,7 +136,9 @@ class C19(Check):
                     "the culling loop of _calc_spanning_tree is modelled as written (dict-of-dicts as one insertion-ordered association list) and proved equal to the closed form "
                     "the other proofs use (cull_loop_is_closed_form); the iteration order of the `switches` set is an oracle argument fed from the harness",
                     "harness: stub connections / stub Timer / virtual clock; the union-find forest oracle"]
-    assumptions = ["LLDPSender's schedule (add_port / del_port / _timer_handler: which ports are probed, and when) is neither modelled nor anchored: probes are ops of the "
+    assumptions = ["port state (carrier up / down, PortStatus) is no input of Discovery's adjacency or of _update_tree: `pstate` ops of a history flip OFPPS_LINK_DOWN in the "
+                   "controller's port table and raise the real PortStatus event, and are no-ops in the model; the flood bit is configuration and must be right whatever the carrier",
+                   "LLDPSender's schedule (add_port / del_port / _timer_handler: which ports are probed, and when) is neither modelled nor anchored: probes are ops of the "
                    "history, so 'the adjacency contains every live link' rests on the environment delivering a probe over every live link at least once per timeout; "
                    "only create_packet_out / _create_discovery_packet (the probe's content) are modelled",
                    "expiry sweeps are ops too: the recurring Timer(_timeout_check_period, _expire_links) is replaced by a stub, so 'a silent link is withdrawn within "
@@ -161,7 +163,7 @@ class C19(Check):
                   "(flood_ports_full_repaired, flood_keeps).  flood_bits / bits_are_prev / port_mods_are_changes tie _prev to the NO_FLOOD bits on the switches, given that "
                   "every port_mod is applied.  Trusted: Lean kernel, axioms propext/Classical.choice/Quot.sound, the hand-written models, this harness; the theorems are "
                   "about the models, the runs below are what connects them to the code.")
-    rule = ("calcseq: 2..5 adjacencies through one process in a row (other dict order, a parallel cable gone, a cable re-plugged, the same again); upd: one or two _update_tree() calls from an arbitrary _prev with a send lost at any position; frame corpus: all 256 chassis / port subtypes, all TLV types, declared lengths 0..40 and 255..511; hist corpus: discovery interrupted after every prefix by every switch rebooting, dpid 0, mixed sweeps.  calc (dict order shuffled per case): 2 and 3 switches exhaustive over all 13 cable options per pair (none / 1 / 2 parallel cables, each bidirectional or one-way "
+    rule = ("calcseq: 2..5 adjacencies through one process in a row (other dict order, a parallel cable gone, a cable re-plugged, the same again); upd: one or two _update_tree() calls from an arbitrary _prev with a send lost at any position; frame corpus: all 256 chassis / port subtypes, all TLV types, declared lengths 0..40 and 255..511; portsweep: sender -> receiver for every port number built from parser-relevant byte classes + 0..512 + 0xfe00..0xffff (thorough: all 65536); hist: port numbers from the whole legal range (0x3030..0x3939, 255/256, 0xfeff ...), carrier flaps shorter than the link timeout interleaved with tree changes; hist corpus: discovery interrupted after every prefix by every switch rebooting, dpid 0, mixed sweeps.  calc (dict order shuffled per case): 2 and 3 switches exhaustive over all 13 cable options per pair (none / 1 / 2 parallel cables, each bidirectional or one-way "
             "either way); 4 switches exhaustive over 5 options per pair (5^6; thorough: 6 options, 6^6, + 100000 sampled over all 13); 5 switches (thorough) exhaustive over {none, bidirectional, "
             "one-way} (3^10) + 60000 sampled over all 13; random multigraphs on 5..12 switches; arbitrary link lists with shared / crossed ports.  hist: random topologies of 2..6 switches with redundant / parallel / one-way "
             "cables and 10..60 ops.  codec: boundary x boundary and random dpids/ports.  frame: damaged and foreign LLDP.  "
@@ -332,6 +334,12 @@ class C19(Check):
             cases.append({"kind": "codec", "dpid": dpid, "port": port,
                           "more": [[dpid, port], [(dpid + 1) % 2 ** 64, port], [dpid, (port + 1) % 2 ** 16], [0, 0], [dpid, port]]})
         cases += self._calcseq_corpus(rng)
+        # sender -> receiver for every port number whose two big-endian bytes come from the classes a text parser could mistake for
+        # something (NUL, blanks, sign, digits, hex letters, '_', 'x', 0xff) + every port 0..512 and the last 512 (thorough: all 65536)
+        cls = [0x00, 0x09, 0x0a, 0x0d, 0x20, 0x2b, 0x2d, 0x2f, 0x3a, 0x40, 0x41, 0x46, 0x47, 0x5f, 0x60, 0x61, 0x66, 0x67, 0x78, 0x7f, 0x80, 0xff] + list(range(0x30, 0x3a))
+        ports = sorted({(hi << 8) | lo for hi in cls for lo in cls} | set(range(0, 513)) | set(range(0xfe00, 0x10000)))
+        for i in range(0, len(ports), 256):
+            cases.append({"kind": "portsweep", "dpid": [1, 0x2a, 2 ** 63 + 1][(i // 256) % 3], "ports": ports[i:i + 256]})
         cases += self._hist_corpus()
         cases += self._frame_corpus()
         return cases
@@ -399,6 +407,24 @@ class C19(Check):
                                   (b, [P((c2, 1), (b, 2)), P((a, 1), (b, 1)), P((b, 1), (a, 1)), P((b, 2), (c2, 1))])):
                 out.append({"kind": "hist", "topo": t3, "ops": up3 + rnd(cab) + [{"k": "down", "dpid": victim}, {"k": "tick", "dt": 1000},
                             {"k": "up", "dpid": victim}] + again})
+        # port numbers from the whole legal range: a third switch with uplinks on 12849 (0x3231, "21") and 12597 (0x3135, "15"), ports 255 / 256,
+        # the last real port 0xfeff; everything discovered, a reboot, rediscovery
+        big = {"switches": {"1": [1, 2, 255], "2": [256, 2, 0xfeff], "3": [12849, 12597, 0x3030]},
+               "cables": T(((1, 1), (2, 256)), ((3, 12849), (1, 2)), ((3, 12597), (2, 2)))}
+        cb = [((1, 1), (2, 256)), ((3, 12849), (1, 2)), ((3, 12597), (2, 2))]
+        out.append({"kind": "hist", "topo": big, "ops": ups + rnd(cb) + [{"k": "down", "dpid": 3}, {"k": "up", "dpid": 3}] + rnd(cb) +
+                    [{"k": "tick", "dt": 10125}, {"k": "sweep"}]})
+        # carrier flaps (port status) shorter than the link timeout while the tree changes: cable 1-3 is cut for good; cable 2-3 loses
+        # carrier; the sweep that withdraws 1-3 makes 2-3 a tree link while its ports report LINK_DOWN; carrier back, probes resume
+        def CAR(end, down): return {"k": "pstate", "dpid": end[0], "port": end[1], "down": down}
+        for flap in (c[1], c[0]):
+            keep = [x for x in c if x != c[2]]
+            out.append({"kind": "hist", "topo": tri, "ops": ups + rnd(c) + [{"k": "tick", "dt": 5000}] + rnd(keep) + [{"k": "tick", "dt": 4000}] + rnd(keep) +
+                        [CAR(flap[0], True), CAR(flap[1], True), {"k": "tick", "dt": 2000}, {"k": "sweep"}, CAR(flap[0], False), CAR(flap[1], False)] +
+                        rnd(keep) + [{"k": "tick", "dt": 3000}, {"k": "sweep"}]})
+        # the mirror: all three cables known (2-3 blocked); 2-3 loses carrier; switch 1 leaves (2-3 must open while it reports LINK_DOWN); back
+        out.append({"kind": "hist", "topo": tri, "ops": ups + rnd(c) + [CAR((2, 2), True), CAR((3, 1), True), {"k": "down", "dpid": 1},
+                    CAR((2, 2), False), CAR((3, 1), False)] + rnd([c[1]]) + [{"k": "up", "dpid": 1}] + rnd(c)})
         # loss at every prefix: the triangle's discovery (6 probes) interrupted after every step by the disconnect (and return) of every switch
         for k in range(7):
             for d in (1, 2, 3):
@@ -512,11 +538,17 @@ class C19(Check):
         pool = [1, 2, 3, 4, 5, 6, 7, 9, 10, 16, 17, 255, 256, 257, 1001, 4096, 2 ** 32 + 5, 0x00163e00000a, 0x00163e00000b, 2 ** 63 + 7, 2 ** 64 - 1]
         dpids = sorted(rng.sample(pool[:8] if rng.random() < 0.5 else pool, n))
         nextport = {d: 1 for d in dpids}
+        # port numbers: 1, 2, 3 ... or, per switch, drawn from the whole legal range -- numbers whose two big-endian bytes are ASCII
+        # digits / letters / blanks, the 8- and 15/16-bit boundaries, the last real port before OFPP_MAX
+        special = [255, 256, 257, 1000, 4095, 32767, 32768, 0xfeff, 0x3030, 0x3039, 0x3130, 0x3135, 0x3231, 0x3930, 0x3939, 0x3a30, 0x2f39,
+                   0x6161, 0x4141, 0x6630, 0x2020, 0x0a31, 0x310a, 0x2b31, 0x2d31, 0x5f31, 0x7831, 0x0031, 0x3100]
+        names = {d: (None if rng.random() < 0.5 else rng.sample(special, len(special))) for d in dpids}
+        def num(d, i): return i if names[d] is None or i > len(names[d]) else names[d][i - 1]
         cables = []
         def cable(a, b):
             pa = nextport[a]; nextport[a] += 1
             pb = nextport[b]; nextport[b] += 1
-            cables.append([[a, pa], [b, pb]])
+            cables.append([[a, num(a, pa)], [b, num(b, pb)]])
         order = dpids[:]; rng.shuffle(order)
         for i in range(1, n):                                            # a random spanning tree, then extras (cycles, parallels)
             if rng.random() < 0.9: cable(order[i], rng.choice(order[:i]))
@@ -524,7 +556,7 @@ class C19(Check):
             a, b = rng.sample(dpids, 2); cable(a, b)
         sw = {}
         for d in dpids:
-            ports = list(range(1, nextport[d] + rng.choice([0, 1, 2])))    # plus host-facing ports
+            ports = [num(d, i) for i in range(1, nextport[d] + rng.choice([0, 1, 2]))]    # plus host-facing ports
             if rng.random() < 0.4: ports.append(65534)
             if rng.random() < 0.1: ports.append(0xff00)
             rng.shuffle(ports)
@@ -538,27 +570,46 @@ class C19(Check):
         ops = []
         dirs = [(tuple(a), tuple(b)) for a, b in topo["cables"]] + [(tuple(b), tuple(a)) for a, b in topo["cables"]]
         dead = set(d for d in dirs if rng.random() < 0.12)                  # one-way faults
+        nocarrier = set()                                                   # cables (index) whose two end ports report LINK_DOWN right now
+        cab_of = {}
+        for i, (a, b) in enumerate(topo["cables"]):
+            cab_of[(tuple(a), tuple(b))] = i; cab_of[(tuple(b), tuple(a))] = i
         for d in rng.sample(dpids, len(dpids)):
             if rng.random() < 0.95: ops.append({"k": "up", "dpid": d}); up.add(d)
+        def carrier(i, down):
+            for end in topo["cables"][i]:
+                if end[0] in up: ops.append({"k": "pstate", "dpid": end[0], "port": end[1], "down": down})
+            (nocarrier.add if down else nocarrier.discard)(i)
         def round_():
             for a, b in rng.sample(dirs, len(dirs)):
-                if (a, b) in dead or b[0] not in up: continue
+                if (a, b) in dead or b[0] not in up or cab_of[(a, b)] in nocarrier: continue
                 if a[0] not in up and rng.random() < 0.8: continue
                 ops.append({"k": "probe", "from": list(a), "to": list(b)})
         nops = nops or rng.choice([10, 20, 30, 60])
         while len(ops) < nops:
             r = rng.random()
             if r < 0.30: round_()
-            elif r < 0.50 and dirs:
+            elif r < 0.46 and dirs:
                 a, b = rng.choice(dirs)
-                if b[0] in up: ops.append({"k": "probe", "from": list(a), "to": list(b)})
+                if b[0] in up and cab_of[(a, b)] not in nocarrier: ops.append({"k": "probe", "from": list(a), "to": list(b)})
+            elif r < 0.50 and topo["cables"]:
+                # a port-status flap: a cable loses carrier for less than the link timeout (no probe crosses it meanwhile) while the
+                # rest of the network goes on -- sweeps, other links coming and going -- then the carrier is back
+                i = rng.randrange(len(topo["cables"]))
+                if i in nocarrier: carrier(i, False)
+                else:
+                    carrier(i, True)
+                    if rng.random() < 0.6:
+                        ops.append({"k": "tick", "dt": 125 * rng.choice([8, 16, 40, 72])}); ops.append({"k": "sweep"})
             elif r < 0.68: ops.append({"k": "tick", "dt": 125 * rng.choice([1, 8, 24, 40, 40, 48, 80, 81, 88, 160])})
             elif r < 0.80: ops.append({"k": "sweep"})
             elif r < 0.84 and up:
                 d = rng.choice(sorted(up)); up.discard(d); ops.append({"k": "down", "dpid": d})
+                nocarrier -= {i for i, cb in enumerate(topo["cables"]) if d in (cb[0][0], cb[1][0])}
             elif r < 0.87 and up:                                             # reboot: down, up with a fresh port config, rediscovery
                 d = rng.choice(sorted(up))
                 ops += [{"k": "down", "dpid": d}, {"k": "tick", "dt": 125 * rng.choice([1, 8, 16])}, {"k": "up", "dpid": d}]
+                nocarrier -= {i for i, cb in enumerate(topo["cables"]) if d in (cb[0][0], cb[1][0])}     # a rebooted switch reports its ports up
                 round_()
             elif r < 0.94:
                 cand = [d for d in dpids if d not in up]
@@ -592,6 +643,9 @@ class C19(Check):
                 if rng.random() < 0.6: links.add((l[2], l[3], l[0], l[1]))
             links = [list(l) for l in sorted(links)]; rng.shuffle(links)
             yield {"kind": "calc", "links": links}
+        if not quick:
+            for hi in range(256):                                           # every 16-bit port number, sender -> receiver
+                yield {"kind": "portsweep", "dpid": 0x10 + hi, "ports": list(range(hi << 8, (hi + 1) << 8))}
         if not quick:
             # 5 switches: all 3^10 = 59049 patterns over {none, bidirectional, one-way}, then 60000 sampled over all 13 options per pair;
             # 4 switches: 100000 sampled over all 13 options per pair (13^6 = 4.8M is not enumerated)
@@ -754,6 +808,8 @@ class C19(Check):
             elif k == "probe":
                 (d1, p1), (d2, p2) = op["from"], op["to"]
                 if d2 not in up or d1 not in sw or p1 not in sw[d1] or p2 not in sw.get(d2, []): continue
+            elif k == "pstate":
+                if op["dpid"] not in up or op["port"] not in sw[op["dpid"]]: continue
             out.append(op)
         return out
 
@@ -804,6 +860,12 @@ class C19(Check):
                 core.openflow.raiseEventNoErrors(self.ofmod.PacketIn, cons[d2], pi)
             elif k == "sweep":
                 self.expire_cb()
+            elif k == "pstate":
+                # the switch reports a change of carrier on a port: the controller's port table is updated, then PortStatus is raised
+                con = cons[op["dpid"]]; pp = con.ports[op["port"]]
+                pp.state = (pp.state | of.OFPPS_LINK_DOWN) if op["down"] else (pp.state & ~of.OFPPS_LINK_DOWN)
+                ps = of.ofp_port_status(reason=of.OFPPR_MODIFY, desc=pp)
+                core.openflow.raiseEventNoErrors(self.ofmod.PortStatus, con, ps)
             mods = []
             for con in list(cons.values()): mods += drain(con)
             st = {"k": k, "events": copy.deepcopy(self._events), "mods": sorted(mods),
@@ -852,6 +914,30 @@ class C19(Check):
         (dpid, port) pairs in `more` (same port with another hardware address, neighbouring dpid, ...): each must be its own"""
         return {"items": [self._codec_once(d, p, i) for i, (d, p) in enumerate([[case["dpid"], case["port"]]] + case.get("more", []))]}
 
+    def _impl_portsweep(self, case):
+        """sender -> receiver for many port numbers: the probe LLDPSender.create_packet_out builds for (dpid, port), handed to the real
+        PacketIn handler; reports the ports that do not come back as themselves"""
+        d = case["dpid"]
+        class AllKnown(type(self.real_conns)):
+            def __contains__(s, item): return True
+        self.core.openflow._connections = AllKnown()
+        bad, snd, of = [], self.D._sender, self.of
+        try:
+            con = StubCon(of, 0xfffffffffffe, [0xfffd], poxenv.clock())
+            for port in case["ports"]:
+                po = of.ofp_packet_out(); po.unpack(snd.create_packet_out(d, port, hw_of(d & 0xffffffff, port)))
+                pi = of.ofp_packet_in(in_port=0xfffd, data=po.data); pi.buffer_id = None
+                self.D.adjacency.clear()
+                try:
+                    self.D._handle_openflow_PacketIn(self.ofmod.PacketIn(con, pi))
+                    got = [[l.dpid1, l.port1] for l in self.D.adjacency]
+                except Exception as e:
+                    got = type(e).__name__
+                if got != [[d, port]] or po.actions[0].port != port: bad.append([port, got])
+        finally:
+            self.core.openflow._connections = self.real_conns
+        return {"n": len(case["ports"]), "bad": bad[:20], "nbad": len(bad)}
+
     def _impl_frame(self, case):
         return self._packet_in(bytes.fromhex(case["frame"]))
 
@@ -863,6 +949,8 @@ class C19(Check):
 
     def model_request2(self, case, obs):
         k = case["kind"]
+        if k == "portsweep":
+            return None                                                    # oracle only (probe_roundtrip is the theorem; `codec` compares the bytes)
         if k == "calc":
             if "skipped" in obs: return None
             return {"op": "calc", "adj": case["links"], "order": obs["order"]}
@@ -885,6 +973,7 @@ class C19(Check):
                 elif kk == "down": ops.append({"k": "down", "dpid": op["dpid"], "order": st["order"]})
                 elif kk == "sweep": ops.append({"k": "sweep", "order": st["order"]})
                 elif kk == "probe": ops.append({"k": "probe", "l": op["from"] + op["to"], "order": st["order"]})
+                elif kk == "pstate": ops.append({"k": "tick", "dt": 0})     # carrier is no input of discovery's adjacency or of _update_tree
             return {"op": "history", "variant": self.variant, "ops": ops}
         return None
 
@@ -956,6 +1045,12 @@ class C19(Check):
         for links, it in zip(case["seq"], obs["items"]):
             f = self._oracle_calc({"links": links}, it)
             if f: return f.replace("calc:", "calc: in a sequence of calls:", 1)
+        return None
+
+    def _oracle_portsweep(self, case, obs):
+        if obs["nbad"]:
+            port, got = obs["bad"][0]
+            return "codec: probe for (%d,%d) recovered as %s (%d of %d ports of the sweep wrong)" % (case["dpid"], port, got, obs["nbad"], obs["n"])
         return None
 
     def _oracle_frame(self, case, obs):
@@ -1094,6 +1189,11 @@ class C19(Check):
                 for i in range(0, len(ops), n):
                     if len(ops) > n:
                         c = copy.deepcopy(case); del c["ops"][i:i + n]; yield c
+        elif case["kind"] == "portsweep":
+            ps = case["ports"]
+            if len(ps) > 1:
+                for half in (ps[:len(ps) // 2], ps[len(ps) // 2:]):
+                    c = copy.deepcopy(case); c["ports"] = half; yield c
         elif case["kind"] == "calc":
             for i in range(len(case["links"])):
                 c = copy.deepcopy(case); del c["links"][i]; yield c
